@@ -1,8 +1,9 @@
 /-
-  Persist layer — `AccessoryDriver.persist / async_persist` (pyhap/accessory_driver.py) as step
-  programs over a small file-system model.  Serves C15.
+  Persist layer — `AccessoryDriver.persist / async_persist`, `AccessoryEncoder.persist` and the
+  changes of `State` (pyhap/accessory_driver.py, encoder.py, state.py) as step programs over a small
+  file-system model and a component-wise memory model.  Serves C15.
 
-  Python (repaired code, design/fixes/C15.patch):
+  Python (repaired code, design/fixes/C15.patch + design/fixes/C15-mixed-snapshot.patch):
 
       def persist(self):
           with self._persist_lock:                                   -- pc start   (acquire)
@@ -10,11 +11,19 @@
               try:
                   with tempfile.NamedTemporaryFile(..., delete=False) as file_handle:   -- pc mktemp
                       tmp_filename = file_handle.name
-                      self.encoder.persist(file_handle, self.state)  -- pc snapshot (reads the state),
-                                                                     --    then pc write (json.dump: one
+                      with self.state.lock:                          -- pc snapshot (acquire state.lock)
+                          self.encoder.persist(file_handle, self.state)
+                                                                     -- pc reading got: one step per
+                                                                     --    attribute of the state that the
+                                                                     --    encoder reads (paired_clients,
+                                                                     --    client_properties, uuid_to_bytes,
+                                                                     --    mac, config_version, ...), then
+                                                                     -- pc write v rest (json.dump: one
                                                                      --    fp.write per chunk)
-                                                                     -- pc write v [] = leaving the
-                                                                     --    `with`: flush + close
+                                                                     -- pc write v [] = leaving
+                                                                     --    `with state.lock` (release)
+                                                                     -- pc closing v = leaving `with
+                                                                     --    NamedTemporaryFile`: flush+close
                   os.replace(tmp_filename, self.persist_file)        -- pc replace
               except Exception:
                   logger.exception(...); raise
@@ -23,78 +32,117 @@
                       os.remove(tmp_filename)                        -- pc remove
                                                                      -- pc unlock  (release)
 
-  The code as shipped has no lock (`locked := false`): `start` never blocks and `unlock` releases
-  nothing; everything else is identical.
+      def add_paired_client(...):          # State; likewise remove_paired_client, set_accessories_hash,
+          with self.lock:                  --   label mbegin        increment_config_version, the
+              self.uuid_to_bytes[u] = ...  --   label mwrite 2      pair-verify back-fill
+              self.paired_clients[u] = ... --   label mwrite 0
+              self.client_properties[u] = ...   label mwrite 1
+                                           --   label mend submit   (release; `async_persist()` follows
+                                                                     in the same loop callback)
+
+  Two flags select the variant of the code:
+  * `locked`  — `_persist_lock` around the body of `persist` (absent in the code as first shipped);
+  * `slocked` — `state.lock` around every change of the state and around the reads of the encoder
+    (absent up to and including the first repair: there a change can land between two reads of one
+    save and the save installs a mix of two states, `C15_legacy_mixed_counterexample`).
 
   * The file system is `target : Option Content` (the state file) plus `temps : job ↦ Option
     Content` (the temp sibling created by that job; `tempfile` guarantees a fresh name, so the name
     of a job's temp file is modelled by the job's number).
-  * `snap : Nat → Content` — the serialisation of state version `v` as the list of chunks that
-    `json.dump` writes — is a parameter: every theorem holds for every `snap`.
-  * A job's next step can complete (`adv j`) or raise (`fault j`, possible at every I/O step).
-    `crash` kills the process: no step is enabled afterwards and the directory stays as it is.
-  * `mutate` is a pairing change on the loop thread (`State.add/remove_paired_client`; version + 1)
-    followed, in the same loop callback, by `async_persist()` = a new job submitted to the
-    executor.  `spawn` is a save job that is not preceded by a change (`add_accessory`,
-    `config_changed`, `async_start`).  `change` is a bare state change with no save submitted after
-    it: what a call site does that submits its save *before* changing the state (`spawn; change`)
-    or not at all.  The repaired code has no such site (tied by the harness's `public` stream);
-    the label exists to state what the order "change, then submit" buys (`C15_converge_after_save`
-    vs `C15_save_before_change_counterexample`).
-  * Granularity: one step per I/O call of the save; the state read at `snapshot` is a single step
-    (a pairing change landing between the three dict reads of `encoder.persist` is not modelled),
-    `os.replace` is atomic and a failing call has no effect (POSIX contract, trusted).
+  * Memory is `mem : Vec`, one version counter per persisted attribute ("component") of `State`, in
+    the order in which the encoder reads them; a store into component `c` bumps `mem[c]`.  `hist` is
+    the list of memory states at the boundaries of changes — the states "that existed" in the sense
+    of the property (newest first; never empty).
+  * `ser : Vec → Content` — the serialisation of a vector of component versions as the list of chunks
+    that `json.dump` writes — is a parameter: every theorem holds for every `ser`.
+  * A job's next step can complete (`adv j`) or raise (`fault j`, possible at every I/O step and at
+    every read).  `crash` kills the process: no step is enabled afterwards and the directory stays.
+  * A change of the state is `mbegin; mwrite c …; mend submit` on the changing thread (the loop thread
+    for pairing changes; changes are serialised among themselves: at most one is in progress).
+    `mend true` is a change followed, in the same loop callback, by `async_persist()` = a new job
+    submitted to the executor (`pair`, `unpair`, pair-verify's back-fill, `config_changed`,
+    `async_start`).  `mend false` is a change with no save submitted after it: what a call site does
+    that submits its save *before* changing the state (`spawn; change`) or not at all.  The
+    repaired code has no such site (tied by the harness's `public` stream).  `spawn` is a save job
+    that is not preceded by a change (`add_accessory`).
+  * Granularity: one step per I/O call of the save, per attribute read of the encoder and per store
+    of a change; `os.replace` is atomic and a failing call has no effect (POSIX contract, trusted).
 -/
 namespace Hap.Persist
 
 abbrev Chunk := Nat
 abbrev Content := List Chunk
+/-- one version counter per persisted attribute of `State`, in the encoder's reading order -/
+abbrev Vec := List Nat
 
 /-- how a finished job ended: returned, re-raised after a complete cleanup ("handled failure"),
     or the cleanup itself (`os.path.exists` / `os.remove`) raised -/
 inductive Res where
   | ok | raised | cleanupRaised
+  | cancelled                               -- never ran: dropped from the pool's queue
   deriving DecidableEq, Repr
 
 /-- program counter of one save job (the step it is about to execute) -/
 inductive Pc where
   | unspawned
-  | start                                   -- submitted; about to acquire the lock
+  | start                                   -- submitted; about to acquire the persist lock
   | mktemp                                  -- about to call NamedTemporaryFile
-  | snapshot                                -- temp exists and is empty; about to read the state
-  | write (v : Nat) (rest : Content)        -- snapshot of version v taken; chunks still to write
-                                            --   (rest = [] : about to flush + close the temp)
-  | replace (v : Nat)                       -- about to os.replace(temp, target)
+  | snapshot                                -- temp exists and is empty; about to acquire state.lock
+  | reading (got : Vec)                     -- inside encoder.persist; components read so far
+  | write (v : Vec) (rest : Content)        -- all components read (= v); chunks still to write
+                                            --   (rest = [] : about to leave `with state.lock`)
+  | closing (v : Vec)                       -- about to leave `with NamedTemporaryFile`: flush + close
+  | replace (v : Vec)                       -- about to os.replace(temp, target)
   | cleanup (raised : Bool)                 -- finally: about to test os.path.exists(temp)
   | remove (raised : Bool)                  -- about to os.remove(temp)
   | unlock (r : Res)                        -- about to leave `with lock`
   | done (r : Res)
   deriving DecidableEq, Repr
 
+/-- who holds `state.lock` -/
+inductive Owner where
+  | job (j : Nat)
+  | changer
+  deriving DecidableEq, Repr
+
 structure Sys where
   target : Option Content
   temps : Nat → Option Content
-  ver : Nat
+  mem : Vec
+  hist : List Vec
+  chg : Bool
   jobs : Nat → Pc
   njobs : Nat
   lock : Option Nat
+  slock : Option Owner
   crashed : Bool
 
 inductive Label where
-  | mutate | spawn | change | adv (j : Nat) | fault (j : Nat) | crash
+  | mbegin | mwrite (c : Nat) | mend (submit : Bool) | spawn
+  | adv (j : Nat) | fault (j : Nat) | crash
+  | cancel (j : Nat)                        -- a job still queued in the pool (no worker has picked it
+                                            --   up) is dropped: `Future.cancel()`, or
+                                            --   `executor.shutdown(cancel_futures=True)` on the stop path
   deriving DecidableEq, Repr
 
-/-- a schedule step that is neither a fault, nor a crash, nor a state change for which no save is
-    submitted afterwards (`change`) -/
+/-- a schedule step that is neither a fault, nor a crash, nor the end of a state change for which no
+    save is submitted afterwards, nor the dropping of a queued save job -/
 def Label.quiet : Label → Bool
   | .fault _ => false
   | .crash => false
-  | .change => false
+  | .mend false => false
+  | .cancel _ => false
   | _ => true
 
-def initSys (init : Option Content) : Sys :=
-  { target := init, temps := fun _ => none, ver := 0, jobs := fun _ => .unspawned, njobs := 0,
-    lock := none, crashed := false }
+/-- a whole change of the state that stores into the components `cs`, then submits its save -/
+def mutateL (cs : List Nat) : List Label := [.mbegin] ++ cs.map .mwrite ++ [.mend true]
+
+/-- a whole change of the state with no save submitted after it -/
+def changeL (cs : List Nat) : List Label := [.mbegin] ++ cs.map .mwrite ++ [.mend false]
+
+def initSys (init : Option Content) (mem0 : Vec) : Sys :=
+  { target := init, temps := fun _ => none, mem := mem0, hist := [mem0], chg := false,
+    jobs := fun _ => .unspawned, njobs := 0, lock := none, slock := none, crashed := false }
 
 def setJob (s : Sys) (j : Nat) (pc : Pc) : Sys :=
   { s with jobs := fun i => if i = j then pc else s.jobs i }
@@ -107,21 +155,41 @@ def spawn (s : Sys) : Sys :=
 
 def resOf (raised : Bool) : Res := if raised then .raised else .ok
 
+/-- a store into component `c` -/
+def bump : Vec → Nat → Vec
+  | [], _ => []
+  | x :: xs, 0 => (x + 1) :: xs
+  | x :: xs, c + 1 => x :: bump xs c
+
+/-- the latest state at a change boundary -/
+def latest (s : Sys) : Vec := s.hist.headD []
+
 /-- job `j` completes its next step -/
-def adv (locked : Bool) (snap : Nat → Content) (s : Sys) (j : Nat) : Option Sys :=
+def adv (locked slocked : Bool) (ser : Vec → Content) (s : Sys) (j : Nat) : Option Sys :=
   match s.jobs j with
   | .unspawned => none
   | .start =>
     if locked then
       match s.lock with
       | none => some { setJob s j .mktemp with lock := some j }
-      | some _ => none                                   -- blocked on the lock
+      | some _ => none                                   -- blocked on the persist lock
     else some (setJob s j .mktemp)
   | .mktemp => some (setJob (setTemp s j (some [])) j .snapshot)
-  | .snapshot => some (setJob s j (.write s.ver (snap s.ver)))
+  | .snapshot =>
+    if slocked then
+      match s.slock with
+      | none => some { setJob s j (.reading []) with slock := some (.job j) }
+      | some _ => none                                   -- blocked on state.lock
+    else some (setJob s j (.reading []))
+  | .reading got =>
+    if got.length < s.mem.length then
+      some (setJob s j (.reading (got ++ [s.mem[got.length]?.getD 0])))
+    else some (setJob s j (.write got (ser got)))
   | .write v (c :: rest) =>
     some (setJob (setTemp s j (some ((s.temps j).getD [] ++ [c]))) j (.write v rest))
-  | .write v [] => some (setJob s j (.replace v))
+  | .write v [] =>
+    some (setJob { s with slock := if slocked then none else s.slock } j (.closing v))
+  | .closing v => some (setJob s j (.replace v))
   | .replace _ =>
     some (setJob { setTemp s j none with target := s.temps j } j (.cleanup false))
   | .cleanup r =>
@@ -134,40 +202,62 @@ def adv (locked : Bool) (snap : Nat → Content) (s : Sys) (j : Nat) : Option Sy
   | .done _ => none
 
 /-- the next step of job `j` raises -/
-def fault (s : Sys) (j : Nat) : Option Sys :=
+def fault (slocked : Bool) (s : Sys) (j : Nat) : Option Sys :=
   match s.jobs j with
   | .mktemp => some (setJob s j (.unlock .raised))      -- tmp_filename is None: nothing to clean
-  | .snapshot => some (setJob s j (.cleanup true))
-  | .write _ _ => some (setJob s j (.cleanup true))     -- a write, or the flush/close, raised
+  | .snapshot => some (setJob s j (.cleanup true))      -- the encoder call raised at once
+  | .reading _ =>                                       -- a read raised (e.g. `dictionary changed
+    some (setJob { s with slock := if slocked then none else s.slock } j (.cleanup true))
+                                                        --   size during iteration`): leaves `with`
+  | .write _ _ =>                                       -- a write raised: leaves `with state.lock`
+    some (setJob { s with slock := if slocked then none else s.slock } j (.cleanup true))
+  | .closing _ => some (setJob s j (.cleanup true))     -- the flush/close raised
   | .replace _ => some (setJob s j (.cleanup true))     -- os.replace raised: target untouched
   | .cleanup _ => some (setJob s j (.unlock .cleanupRaised))
   | .remove _ => some (setJob s j (.unlock .cleanupRaised))
   | _ => none
 
-def step (locked : Bool) (snap : Nat → Content) (s : Sys) (l : Label) : Option Sys :=
+def step (locked slocked : Bool) (ser : Vec → Content) (s : Sys) (l : Label) : Option Sys :=
   if s.crashed then none else
   match l with
-  | .mutate => some (spawn { s with ver := s.ver + 1 })
+  | .mbegin =>
+    if s.chg then none else
+    if slocked then
+      match s.slock with
+      | none => some { s with chg := true, slock := some .changer }
+      | some _ => none                                   -- the changing thread waits for the save's reads
+    else some { s with chg := true }
+  | .mwrite c => if s.chg then some { s with mem := bump s.mem c } else none
+  | .mend submit =>
+    if s.chg then
+      let s1 := { s with chg := false, hist := s.mem :: s.hist,
+                         slock := if slocked then none else s.slock }
+      some (if submit then spawn s1 else s1)
+    else none
   | .spawn => some (spawn s)
-  | .change => some { s with ver := s.ver + 1 }
-  | .adv j => adv locked snap s j
-  | .fault j => fault s j
+  | .adv j => adv locked slocked ser s j
+  | .fault j => fault slocked s j
   | .crash => some { s with crashed := true }
+  | .cancel j =>
+    match s.jobs j with
+    | .start => some (setJob s j (.done .cancelled))
+    | _ => none
 
 /-- run a schedule; `none` if some label is not enabled where it stands -/
-def exec (locked : Bool) (snap : Nat → Content) : List Label → Sys → Option Sys
+def exec (locked slocked : Bool) (ser : Vec → Content) : List Label → Sys → Option Sys
   | [], s => some s
   | l :: ls, s =>
-    match step locked snap s l with
-    | some s' => exec locked snap ls s'
+    match step locked slocked ser s l with
+    | some s' => exec locked slocked ser ls s'
     | none => none
 
 /-- index of the first label that is not enabled (for the driver) -/
-def firstBlocked (locked : Bool) (snap : Nat → Content) : List Label → Sys → Nat → Option Nat
+def firstBlocked (locked slocked : Bool) (ser : Vec → Content) :
+    List Label → Sys → Nat → Option Nat
   | [], _, _ => none
   | l :: ls, s, i =>
-    match step locked snap s l with
-    | some s' => firstBlocked locked snap ls s' (i + 1)
+    match step locked slocked ser s l with
+    | some s' => firstBlocked locked slocked ser ls s' (i + 1)
     | none => some i
 
 def Pc.isDone : Pc → Bool
